@@ -242,7 +242,11 @@ def structure_checks(verdict, spec, nss, tier, seed):
                 eps = float(np.finfo(fdt).eps)
                 d = c["d"]
                 params = [f"p{i}" for i in range(d)]
-                bounds = {params[i]: list(kinds_bounds[c["kinds"][i]]) for i in range(d)}
+                # bounds belong to parameter *names*: the mapping is written in another order than the
+                # parameter list for part of the configurations (a dict has no meaningful order; HDF5
+                # returns keys alphabetically on reload)
+                order = list(range(d)) if ci % 3 == 0 else (list(range(d))[::-1] if ci % 3 == 1 else list(range(1, d)) + [0])
+                bounds = {params[i]: list(kinds_bounds[c["kinds"][i]]) for i in order}
                 periodic = [params[i] for i in range(d) if c["kinds"][i] == "periodic"]
                 scen = {"builder": "structure", "params": {"config": {k: c[k] for k in ("d", "kinds", "b2u", "btrans", "affine", "flowt")}, "ns": ns, "dtype": dt}}
                 cols = []
